@@ -108,3 +108,11 @@ Lemma cpr_examples :
   brk_run (out (run (init2 true true) w_cpr_render)) = Some false /\
   cprwait (cp (run (init2 true true) ([LAppStart; LW 0 ta] ++ batch ++ [LLoopStep]))) = true.
 Proof. vm_compute. repeat split. Qed.
+
+(* before aa2fd63: the same schedule kills the flush thread, and everything
+   written afterwards stays in the queue *)
+Lemma closed_loop_pinned :
+  fth (px (run_pinned (init true) w_crash)) = FCrash /\
+  out_text (run_pinned (init true) w_crash) = [] /\
+  queue_text (px (run_pinned (init true) w_crash)) = tb.
+Proof. vm_compute. repeat split. Qed.
